@@ -12,7 +12,10 @@ pub const LEN_AUTH: usize = 16;
 pub const LEN_FDST: usize = 24;
 
 fn raw(next: i64, len: usize, fill: u8) -> Ipv6RawExtHeader {
-    Ipv6RawExtHeader::new_raw(IpNumber(next as u8), &vec![fill; len - 2]).unwrap()
+    // a header with a history: it held a longer payload before (whatever is left of it behind the used part is not part of the value)
+    let mut h = Ipv6RawExtHeader::new_raw(IpNumber(next as u8), &[0xEE; 62]).unwrap();
+    h.set_payload(&vec![fill; len - 2]).unwrap();
+    h
 }
 
 pub fn build(c: &Value) -> Ipv6Extensions {
